@@ -121,6 +121,10 @@ class SequentialPlan(plans.plan.Plan):
         - `AND` the other `ActionInstance` reads or writes on the same `grounded fluent` (reads means that one of his preconditions
             or one of his condition in a conditional effect depends on said fluent).
 
+        An `ActionInstance` that writes a `grounded fluent` appearing in a state invariant of the `problem` also reads
+        every `grounded fluent` of that state invariant: the invariant is checked in the state the `ActionInstance`
+        produces, so 2 `ActionInstances` writing different fluents of the same state invariant can not be swapped.
+
         :param problem: The `problem` for which this `SequentialPlan` is created.
         :return: A `PartialOrderPlan` compatible with the given `problem`.
         """
@@ -134,6 +138,24 @@ class SequentialPlan(plans.plan.Plan):
         # all_required is the mapping from a grounded fluent to all the action instances that read the value of that
         # fluent in their preconditions (or in the condition of their conditional effects)
         all_required: Dict[FNode, List["plans.plan.ActionInstance"]] = {}
+        # invariants_fluents contains, for every state invariant of the problem, the grounded fluents it depends on;
+        # the state invariants are checked in every state of the plan, so an action instance that writes
+        # one of those fluents "reads" all of them
+        invariants_fluents: List[Set[FNode]] = []
+        state_invariants: List[FNode] = []
+        if isinstance(problem, up.model.Problem):
+            state_invariants = problem.state_invariants
+        for state_invariant in state_invariants:
+            invariant_fluents: Set[FNode] = set()
+            for fluent_exp in fve.get(
+                simp.simplify(eqr.remove_quantifiers(state_invariant, problem))
+            ):
+                if any(len(fve.get(arg)) != 0 for arg in fluent_exp.args):
+                    raise UPUsageError(
+                        f"The partial deordering of a Sequential Plan does not allow the use of fluents inside the parameter of fluents!\nThe fluent: {fluent_exp} does violates this contraint."
+                    )
+                invariant_fluents.add(fluent_exp)
+            invariants_fluents.append(invariant_fluents)
         # graph stores the information gathered through the process
         graph = nx.DiGraph()
         for action_instance in self.actions:
@@ -178,6 +200,17 @@ class SequentialPlan(plans.plan.Plan):
                 required_fluents.add(
                     simp.simplify(subs.substitute(lifted_fluent, assignments))
                 )
+
+            # the action instance also requires the fluents of the state invariants that mention a fluent it modifies
+            modified_fluents: Set[FNode] = set()
+            for effect in inst_action.effects:
+                for eff in effect.expand_effect(problem):
+                    modified_fluents.add(
+                        simp.simplify(subs.substitute(eff.fluent, assignments))
+                    )
+            for invariant_fluents in invariants_fluents:
+                if not invariant_fluents.isdisjoint(modified_fluents):
+                    required_fluents |= invariant_fluents
 
             # for every required fluent, add this action instance to the list of action instances that requires this fluent
             # and order the current action instance after the last modifier of the fluent
